@@ -190,7 +190,9 @@ FS(cx, k) ==
       ELSE ref
 
 \* lengths relative to this element's font size (lineHeight, linePadding, outline thickness, shadow offsets ...)
-LenFS(cx, k, v) == Resolve(v, FS(cx, k), FS(cx, k), CellH(cx.doc), PxH(cx.doc))
+\* (fs is the element's computed font size, handed in so that it is derived once per value)
+LenOf(cx, fs, v) == Resolve(v, fs, fs, CellH(cx.doc), PxH(cx.doc))
+LenFS(cx, k, v) == LenOf(cx, FS(cx, k), v)
 \* horizontal / vertical measures of the root container
 LenW(cx, k, v) == Resolve(v, RootW, FS(cx, k), CellW(cx.doc), PxW(cx.doc))
 LenH(cx, k, v) == Resolve(v, RootH, FS(cx, k), CellH(cx.doc), PxH(cx.doc))
@@ -241,6 +243,11 @@ OriginFromPosition(cx, k, pv) ==
   IN  [k |-> "org", x |-> Ln("rw", IF pv.he = "left" THEN offX ELSE QSub(freeW, offX)),
                     y |-> Ln("rh", IF pv.ve = "top" THEN offY ELSE QSub(freeH, offY))]
 
+\* Outside the property's domain: a position that comes from an <initial> only while the region itself specifies an
+\* origin (TTML2 does not say which of the two places the region) - such values are skipped and counted, not judged
+PositionContested(cx, k) ==
+  Specified(cx, k, "Position") = NoVal /\ InitialOverride(cx.doc, "Position") # NoVal /\ Specified(cx, k, "Origin") # NoVal
+
 \* origin (10.2.26): overridden by a position; else x against the root width, y against the root height
 OriginOf(cx, k) ==
   LET pv == PositionResolved(cx, k) IN
@@ -262,13 +269,14 @@ PaddingOf(cx, k, v) ==
                     start  |-> IF vert THEN AlongH(v.start) ELSE AlongW(v.start),
                     end    |-> IF vert THEN AlongH(v.end) ELSE AlongW(v.end)]
 
-ColourOr(cx, k, col) == IF col # "" THEN col ELSE Comp(cx, k, "Color").s
-
 \* the computed value of a resolved (specified or initial) value v of property p on node k
 Compute(cx, k, p, v) ==
-  LET cls == PropTable[p].cls IN
+  LET cls == PropTable[p].cls
+      fs  == FS(cx, k)
+      col == Comp(cx, k, "Color").s
+  IN
   CASE cls = "opaque"    -> v
-    [] cls = "lenFS"     -> IF v.k = "tok" THEN v ELSE LenFS(cx, k, v)
+    [] cls = "lenFS"     -> IF v.k = "tok" THEN v ELSE LenOf(cx, fs, v)
     [] cls = "disparity" -> LenW(cx, k, v)
     [] cls = "extent"    -> ExtentOf(cx, k, v)
     [] cls = "padding"   -> PaddingOf(cx, k, v)
@@ -276,20 +284,20 @@ Compute(cx, k, p, v) ==
     [] cls = "rubyReserve" ->
          IF v.k = "tok" THEN v
          ELSE [k |-> "rr", pos |-> v.pos, has |-> 1,
-               len |-> IF v.has = 1 THEN LenFS(cx, k, v.len) ELSE LenFS(cx, k, [k |-> "len", u |-> "pct", n |-> 50, d |-> 1])]
+               len |-> IF v.has = 1 THEN LenOf(cx, fs, v.len) ELSE LenOf(cx, fs, [k |-> "len", u |-> "pct", n |-> 50, d |-> 1])]
     \* textOutline (10.2.41): the colour defaults to the computed tts:color; thickness relative to the font size
     [] cls = "textOutline" ->
-         IF v.k = "tok" THEN v ELSE [k |-> "to", col |-> ColourOr(cx, k, v.col), th |-> LenFS(cx, k, v.th)]
+         IF v.k = "tok" THEN v ELSE [k |-> "to", col |-> IF v.col # "" THEN v.col ELSE col, th |-> LenOf(cx, fs, v.th)]
     [] cls = "textShadow" ->
          IF v.k = "tok" THEN v
          ELSE [k |-> "ts", sh |-> [j \in 1..Len(v.sh) |->
-                 [x |-> LenFS(cx, k, v.sh[j].x), y |-> LenFS(cx, k, v.sh[j].y), hasb |-> v.sh[j].hasb,
-                  b |-> IF v.sh[j].hasb = 1 THEN LenFS(cx, k, v.sh[j].b) ELSE v.sh[j].b,
-                  col |-> ColourOr(cx, k, v.sh[j].col)]]]
+                 [x |-> LenOf(cx, fs, v.sh[j].x), y |-> LenOf(cx, fs, v.sh[j].y), hasb |-> v.sh[j].hasb,
+                  b |-> IF v.sh[j].hasb = 1 THEN LenOf(cx, fs, v.sh[j].b) ELSE v.sh[j].b,
+                  col |-> IF v.sh[j].col # "" THEN v.sh[j].col ELSE col]]]
     \* textEmphasis (10.2.39): colour defaults to tts:color; auto = filled circle (horizontal) / filled sesame (vertical)
     [] cls = "textEmphasis" ->
          IF v.k = "tok" THEN v
-         ELSE [k |-> "te", pos |-> v.pos, col |-> ColourOr(cx, k, v.col),
+         ELSE [k |-> "te", pos |-> v.pos, col |-> IF v.col # "" THEN v.col ELSE col,
                style |-> IF v.style # "auto" THEN v.style
                          ELSE IF IsVertical(Comp(cx, 0, "WritingMode")) THEN "filled sesame" ELSE "filled circle"]
 
